@@ -45,7 +45,7 @@ def strategy(tier):
         "t": st.just("bloom"), "geom": st.integers(0, 29).flatmap(lambda z: big_geom if z == 0 else geom), "hash": gen.hash_name_st(gen.ALL_HASHES + ["textonly"]), "pool": gen.pool_st(2, 10),
         "ka": st.sampled_from(["bloom", "ondisk"]), "kb": st.sampled_from(["bloom", "ondisk"]),
         "sa": so.stream_st(False), "sb": so.stream_st(False), "sx": so.stream_st(False, max_len=4), "chain": st.sampled_from([0, 0, 1, 2]), "fresh_hf": st.booleans(),
-        "va": st.sampled_from(so.OPERAND_VARIANTS), "vb": st.sampled_from(so.OPERAND_VARIANTS), "nudge": st.sampled_from([0, 0, 0, 1]),
+        "va": st.sampled_from(so.OPERAND_VARIANTS), "vb": st.sampled_from(so.OPERAND_VARIANTS), "nudge": st.sampled_from([0, 0, 0, 1, 2]),
         "frac": st.sampled_from([0, 0, 0, 0, 0, 0.5, 0.25]),
         "p2": st.one_of(st.none(), st.fixed_dictionaries({"ca": st.booleans(), "cb": st.booleans(), "sa2": so.stream_st(False, max_len=5),
                                                            "sb2": so.stream_st(False, max_len=5)}))})
@@ -53,7 +53,7 @@ def strategy(tier):
         "t": st.just("cbloom"), "geom": geom, "hash": gen.hash_name_st(gen.ALL_HASHES + ["textonly"]), "pool": gen.pool_st(2, 10),
         "sa": so.stream_st(True), "sb": so.stream_st(True), "sx": so.stream_st(True, max_len=4), "chain": st.sampled_from([0, 0, 1, 2]), "fresh_hf": st.booleans(),
         "va": st.sampled_from(["same", "same", "reload", "hex"]), "vb": st.sampled_from(["same", "same", "reload", "hex"]),
-        "nudge": st.sampled_from([0, 0, 0, 1]), "frac": st.sampled_from([0, 0, 0, 0, 0, 0.5, 0.25]),
+        "nudge": st.sampled_from([0, 0, 0, 1, 2]), "frac": st.sampled_from([0, 0, 0, 0, 0, 0.5, 0.25]),
         "p2": st.one_of(st.none(), st.fixed_dictionaries({"ca": st.booleans(), "cb": st.booleans(), "sa2": so.stream_st(True, max_len=5),
                                                            "sb2": so.stream_st(True, max_len=5)}))})
     cms = st.fixed_dictionaries({
@@ -101,12 +101,15 @@ def run_case(case, ctx):
                 va = va if va == "zero" else "same"
                 vb = vb if vb == "zero" else "same"
                 ctx.feat("fractional_est_elements")
-            fpr_b = fpr
+            fpr_b, est_b = fpr, est
             if case.get("nudge"):
-                p2_ = so.same_geometry_rate(est, fpr)
-                if p2_ is not None:
-                    fpr_b = p2_
-                    ctx.feat("operands_same_geometry_different_nominal_rate")
+                g2_ = so.same_geometry_params(est, fpr, len(case["sa"]) + 2 * len(case["sb"]))
+                if g2_ is not None:
+                    est_b, fpr_b = g2_
+                    if case["nudge"] == 2:
+                        # (either operand may be the one with the other nominal parameters)
+                        est, est_b, fpr, fpr_b = est_b, est, fpr_b, fpr
+                    ctx.feat("operands_same_geometry_different_nominal_rate" if est_b == est else "operands_same_geometry_different_est_elements")
             try:
                 A = so.make_bloom(ctx, ka, est, fpr, case["hash"], "a")
             except Exception as e:  # noqa
@@ -116,7 +119,7 @@ def run_case(case, ctx):
                 ctx.feat("rejected_params")
                 return
             objs.append(A)
-            B = so.make_bloom(ctx, kb, est, fpr_b, case["hash"], "b")
+            B = so.make_bloom(ctx, kb, est_b, fpr_b, case["hash"], "b")
             objs.append(B)
             S = so.make_bloom(ctx, "counting" if t == "cbloom" else "bloom", est, fpr, case["hash"], "s")
             ha2 = so.second_handle(ctx, A, ka, case["hash"]) if va == "handle2" else None
